@@ -20,7 +20,7 @@ TraceInit == Init /\ l = 1 /\ ses = "" /\ fails = {} /\ viol = {}
 
 TReset == /\ l <= Len(Trace) /\ Line.a = "Reset" /\ l' = l + 1 /\ ses' = Line.ses
           /\ fst' = "idle" /\ lst' = "idle" /\ chan' = <<>> /\ sent' = <<>> /\ got' = <<>>
-          /\ ferr' = FALSE /\ lerr' = FALSE /\ sql' = [sent |-> "", rcvd |-> ""]
+          /\ ferr' = FALSE /\ lerr' = FALSE /\ sql' = [sent |-> "", rcvd |-> ""] /\ lstop' = FALSE
           /\ UNCHANGED fails
 Same == UNCHANGED <<ses, fails>>
 TLQuery == IsEv("leader", "query") /\ LQuery(Line.d) /\ Same
@@ -32,9 +32,10 @@ TFEnd == IsEv("follower", "end") /\ FEnd(Line.d = "error") /\ Same
 TLFields == IsEv("leader", "fields") /\ LFields /\ Head(chan).d = Line.d /\ Same
 TLRow == IsEv("leader", "row") /\ LRow /\ Head(chan).d = Line.d /\ Same
 \* the handler's return: it has the closing message and reports the follower's error
-TLEnd == IsEv("leader", "end") /\ (LEnd \/ LFail) /\ lerr' = (Line.d = "error") /\ Same
+TLStop == IsEv("leader", "stop") /\ ConsumerStops /\ Same
+TLEnd == IsEv("leader", "end") /\ (LEnd \/ LFail \/ LStop) /\ lerr' = (Line.d = "error") /\ Same
 
-Normal == TReset \/ TLQuery \/ TFQuery \/ TFFields \/ TFRow \/ TFEnd \/ TLFields \/ TLRow \/ TLEnd
+Normal == TLStop \/ TReset \/ TLQuery \/ TFQuery \/ TFFields \/ TFRow \/ TFEnd \/ TLFields \/ TLRow \/ TLEnd
 
 NextReset == LET S == {j \in (l + 1)..Len(Trace) : Trace[j].a = "Reset"}
              IN IF S = {} THEN Len(Trace) + 1 ELSE Min(S)
